@@ -20,6 +20,37 @@ def _kw(call, name, pos=None):
     return None
 
 
+def _piece_of(prog, mod, name, p, env, line, depth=0):
+    """one table entry: Polynomial(applicable_range=Range(a, b), coefficients=[...]) written out, or built by a module helper
+    that returns such a call from its parameters"""
+    if not isinstance(p, ast.Call):
+        raise AnchorMissing("thermocouples.%s: Polynomial(...) entries" % name)
+    if dotted(p.func) != "Polynomial":
+        r = prog.resolve_expr(mod, p.func) if isinstance(p.func, (ast.Name, ast.Attribute)) else None
+        if not (r and r[0] == "func") or depth > 2:
+            raise AnchorMissing("thermocouples.%s: Polynomial(...) entries" % name)
+        g = r[1]
+        rets = [x for x in walk_body(g.node) if isinstance(x, ast.Return) and x.value is not None]
+        if len(rets) != 1:
+            raise AnchorMissing("thermocouples.%s: helper %s with a single return" % (name, g.qual))
+        env2 = {}
+        for prm, a in list(zip(g.params, p.args)) + [(k.arg, k.value) for k in p.keywords if k.arg]:
+            v = prog.try_fold(a, mod, env=env, default="?")
+            if v == "?":
+                raise AnchorMissing("thermocouples.%s: constant table entries" % name)
+            env2[prm] = v
+        return _piece_of(prog, g.module, name, rets[0].value, env2, line, depth + 1)
+    rng = _kw(p, "applicable_range", 0)
+    coefs = _kw(p, "coefficients", 1)
+    if not (isinstance(rng, ast.Call) and dotted(rng.func) == "Range" and len(rng.args) == 2):
+        raise AnchorMissing("thermocouples.%s: Range(start, end)" % name)
+    start, end = (prog.try_fold(a, mod, env=env, default="?") for a in rng.args)
+    cs = prog.try_fold(coefs, mod, env=env)
+    if cs is None or start == "?" or end == "?":
+        raise AnchorMissing("thermocouples.%s: constant table entries" % name)
+    return {"start": start, "end": end, "coefficients": [float(c) for c in cs], "line": line}
+
+
 def extract_tables(prog):
     """{letter: {forward: [{start,end,coefficients}], inverse: [...], exponential: [a0,a1,a2] or None, node}}"""
     mod = prog.module("thermocouples")
@@ -35,17 +66,7 @@ def extract_tables(prog):
                 raise AnchorMissing("thermocouples.%s: %s list" % (name, key))
             pieces = []
             for p in lst.elts:
-                if not (isinstance(p, ast.Call) and dotted(p.func) == "Polynomial"):
-                    raise AnchorMissing("thermocouples.%s: Polynomial(...) entries" % name)
-                rng = _kw(p, "applicable_range", 0)
-                coefs = _kw(p, "coefficients", 1)
-                if not (isinstance(rng, ast.Call) and dotted(rng.func) == "Range" and len(rng.args) == 2):
-                    raise AnchorMissing("thermocouples.%s: Range(start, end)" % name)
-                start, end = (prog.try_fold(a, mod, default="?") for a in rng.args)
-                cs = prog.try_fold(coefs, mod)
-                if cs is None or start == "?" or end == "?":
-                    raise AnchorMissing("thermocouples.%s: constant table entries" % name)
-                pieces.append({"start": start, "end": end, "coefficients": [float(c) for c in cs], "line": p.lineno})
+                pieces.append(_piece_of(prog, mod, name, p, None, p.lineno))
             entry[key.split("_")[0]] = pieces
         ex = _kw(v, "exponential_term", 2)
         entry["exponential"] = [float(x) for x in prog.try_fold(ex, mod)] if ex is not None and prog.try_fold(ex, mod) is not None else None
